@@ -15,11 +15,57 @@
 //	    only hang off a derived field (Entry and what it owns: the declared OWNED types) are not
 //	    listed field by field; the ownership claim itself is checked structurally.
 //	(b) per field: the functions that write it, the number of reads in package yang.
-//	(c) per field: what the PROLOGUE of Modules.Process does to it.  The prologue is the
-//	    sequence of top-level statements of Process before the first call of the linking pass
-//	    (allow.json: "linking_pass"), with calls of functions of the package inlined
-//	    (unconditional top-level statements only, also a function literal handed to an
-//	    all-modules iterator).  Classes:
+//	(c) per field: what the PROLOGUE of Modules.Process does to it.  The prologue is what Process
+//	    runs before the linking pass (allow.json: "linking_pass") starts: its top-level statements
+//	    before the first one that contains a call of the linking pass; when the first statement
+//	    that can reach the linking pass is a plain call of a function of the package (`f(...)`,
+//	    `x := f(...)`, `return f(...)`), the statements before it and then the prologue of f
+//	    (depth <= 4).  The walker ENTERS (depth <= 6, no recursion) every call of
+//	      - a function or method of the package (not through an interface);
+//	      - a function literal called on the spot, a local variable defined with a function literal
+//	        and never assigned again, a function-valued parameter whose argument is one of these or
+//	        a function of the package (an all-modules iterator `ms.each(func(m *Module) {...})`),
+//	    and takes along what the variables stand for (WHAT IS RESET) and the circumstances under
+//	    which the statement runs (WHEN).
+//	    WHAT.  A variable stands for
+//	      root     the Modules value or one of its infrastructure objects (one per Modules value):
+//	               the receiver of Process; a chain of field selections on a root variable whose type
+//	               is a struct of the package that is not an AST node; the receiver of a method of
+//	               such a struct, whatever it is called on
+//	      tables   a literal list of MODULE CONTAINERS []map[string]*Module{ms.Modules, ...}
+//	      maps     one module container ms.X, or the value variable of a range over tables
+//	      module   the value variable of a range over maps
+//	      elems    a field of a module variable m.F, or an accessor call m.F() (body `return m.F`)
+//	      elem     the value variable of a range over elems
+//	    and it keeps that meaning through `x := e`, as receiver expression or argument of an entered
+//	    call (the callee's receiver / parameter stands for it), and through a call without
+//	    arguments of a function whose body is `return e`.  Any other assignment to the variable
+//	    ends it.  A reset `x.f = <fresh value>` (x.f a chain of field selections, nothing indexed)
+//	    counts for the one object when x is root, for every element of the covered containers when
+//	    x is module or elem, and is `partial` ("through a variable that does not stand for every
+//	    object") otherwise - so a helper m.unlink() called for every m of a range over every
+//	    container resets what its body resets for its receiver, and the same helper called on
+//	    mm[key], on one module, or over a re-sliced list does not.
+//	    WHEN.  A statement is unconditional when it stands at the top level of the prologue, of an
+//	    entered function, or of a range loop (the loop is the "for every"), also inside
+//	    transparent nil guards:
+//	      - `if X != nil [&& Y != nil] {...}`: its then-branch; `if X == nil [|| Y == nil] {...}
+//	        else {...}`: its else-branch; X an access path (variable, field selections, * & ());
+//	      - after `if X == nil [|| Y == nil] { ...; continue }` standing in a range loop of the
+//	        function, or `{ ...; return }` standing outside every loop of the function (a helper
+//	        called per element, the literal handed to an iterator), without init / else / any other
+//	        way out of its body;
+//	      and the guard is transparent FOR A WRITE only when X lies on the access path of the
+//	      written field: X is the target, a prefix of it, or something the variable the target
+//	      starts at was reached through (the loop element, the slice or map ranged over, the
+//	      receiver expression or argument of the entered call, the receiver of a method call in
+//	      one of these) - where X is nil there is no such object to reset.
+//	    Everything else is conditional: any other condition (an option, a revision, a length, a nil
+//	    test of something else - `if m.BelongsTo != nil`, `if ms.typeDict == nil { return }` before
+//	    the reset of ms.includes), the then-branch of `X == nil` (lazy initialisation is not a
+//	    reset), an if with an init statement, switch / for bodies, everything after a statement
+//	    that may leave by break / goto / labelled continue / return inside a loop (they also end
+//	    the visits of the REMAINING elements).  Classes:
 //	      full-reset       assigned nil / an empty literal / make(...) / clear(x.f) / every key
 //	                       deleted, unconditionally; for a field of AST nodes: assigned a zero
 //	                       value for every element of a slice field of every module of EVERY
@@ -39,9 +85,11 @@
 //	      partial          written in the prologue, but conditionally or not with a fresh value
 //	      none             nothing of the above
 //	    A field may name another function as the place of its reset ("reset_in"): then that
-//	    function must be called unconditionally from Process (chain of top-level calls), must be
-//	    the only writer of the field, and the full reset must be the first statement of it that
-//	    mentions the field.
+//	    function must be called unconditionally from Process (chain of calls standing in top-level
+//	    statements, in the init statement / condition of a top-level if, the tag of a switch or the
+//	    operand of a range; nothing counts after a top-level statement that contains a return,
+//	    except a guard `if recv.X == nil [|| ...] {...}` on the receiver), must be the only writer
+//	    of the field, and the full reset must be the first statement of it that mentions the field.
 //	(d) package-level variables written outside package initialisation (outside init functions,
 //	    functions only called from them, and package-level initialisers): an assignment, ++,
 //	    delete / clear whose target starts at the variable; the ADDRESS of the variable (or of a
